@@ -55,6 +55,10 @@ def _r(src, args, ret):
 
 
 REGRESSION = [
+    # float literals that are powers of two (the literal's own type must hold the integer part)
+    _r("def f(a: Qfixed[3, 3]) -> bool:\n    return a == 4.0\n", [["a", "Qfixed3_3"]], "bool"),
+    _r("def f(a: Qfixed[2, 2]) -> Qfixed[2, 2]:\n    return a + 2.0 if a < 2.0 else a\n", [["a", "Qfixed2_2"]], "Qfixed2_2"),
+    _r("def f(a: Qfixed[4, 4]) -> bool:\n    return a >= 8.0\n", [["a", "Qfixed4_4"]], "bool"),
     # a tuple literal holding a tuple-typed value (variable, argument, matrix row) with elements of different sizes, indexed later
     _r("def f(a: bool, q: Tuple[Qint[2], bool]) -> bool:\n    t = (a, q)\n    return t[1][1]\n", [["a", "bool"], ["q", ["Qint2", "bool"]]], "bool"),
     _r("def f(a: Qint[2], q: Tuple[Qint[2], bool]) -> Qint[2]:\n    t = (a, q)\n    return t[1][0] + t[0]\n", [["a", "Qint2"], ["q", ["Qint2", "bool"]]], "Qint2"),
